@@ -386,7 +386,7 @@ func checkC03Resource(p *Prog, r *Report) {
 		return
 	}
 	r.fn(funcName(mc))
-	eachInstr(md, func(ins ssa.Instruction) {
+	eachInstrOf(append([]*ssa.Function{md}, stringHelpers(md)...), func(ins ssa.Instruction) {
 		c, ok := ins.(*ssa.Call)
 		if !ok || (c.Common().StaticCallee() != f && c.Common().StaticCallee() != mc) {
 			return
@@ -394,6 +394,25 @@ func checkC03Resource(p *Prog, r *Report) {
 		n++
 		base, fl, ok := fieldLoad(c.Common().Args[1])
 		good := ok && fl == "PrePath" && isParamOrItsCopy(base, md.Params[0])
+		if ok && fl == "PrePath" && !good && c.Parent() != md {
+			// inside a phase helper: its document parameter is MarshalDocument's
+			if prm, isP := base.(*ssa.Parameter); isP {
+				g := c.Parent()
+				idx := -1
+				for i, q := range g.Params {
+					if q == prm {
+						idx = i
+					}
+				}
+				eachInstr(md, func(i2 ssa.Instruction) {
+					if hc, ok := i2.(*ssa.Call); ok && hc.Common().StaticCallee() == g && idx >= 0 && idx < len(hc.Common().Args) {
+						if isParamOrItsCopy(hc.Common().Args[idx], md.Params[0]) {
+							good = true
+						}
+					}
+				})
+			}
+		}
 		r.decide(good, "C03.prefix-flow", "MarshalDocument:"+p.describe(c), p.pos(c.Pos()), "passes doc.PrePath", "a resource is marshaled with a prefix other than the document's PrePath: its links differ from those of the other resources of the document")
 	})
 	eachInstr(mc, func(ins ssa.Instruction) {
@@ -803,25 +822,63 @@ func checkC03Include(p *Prog, r *Report) {
 		r.decide(good, "C03.include-guards", "Include:append-shape", p.pos(appStore.Pos()), "d.Included = append(d.Included, res)", why)
 	}
 
-	// the predicate
+	// the predicate: a closure over the new resource's id and type name, or a
+	// named function of the package that receives them as arguments
 	var pred *ssa.MakeClosure
+	var predFn *ssa.Function
 	eachInstr(f, func(ins ssa.Instruction) {
 		if mc, ok := ins.(*ssa.MakeClosure); ok {
 			pred = mc
 		}
 	})
+	if pred == nil {
+		counts := map[*ssa.Function]int{}
+		eachInstr(f, func(ins ssa.Instruction) {
+			c, ok := ins.(*ssa.Call)
+			if !ok {
+				return
+			}
+			g := c.Common().StaticCallee()
+			if g == nil || !p.inTarget(g) || g.Signature.Results().Len() != 1 || len(g.Params) < 2 {
+				return
+			}
+			if bt, ok := g.Signature.Results().At(0).Type().Underlying().(*types.Basic); !ok || bt.Kind() != types.Bool {
+				return
+			}
+			if fmtTypeString(g.Params[0].Type()) != "jsonapi.Resource" {
+				return
+			}
+			counts[g]++
+		})
+		for g, n := range counts {
+			if predFn == nil || n > counts[predFn] {
+				predFn = g
+			}
+		}
+	}
 	isSameCall := func(v ssa.Value) (*ssa.Call, bool) {
 		c, ok := v.(*ssa.Call)
-		if !ok || pred == nil || c.Common().Value != ssa.Value(pred) {
+		if !ok {
 			return nil, false
 		}
-		return c, true
+		if pred != nil && c.Common().Value == ssa.Value(pred) {
+			return c, true
+		}
+		if predFn != nil && c.Common().StaticCallee() == predFn {
+			return c, true
+		}
+		return nil, false
 	}
-	if pred == nil {
-		r.bad("C03.include-predicate", "Include:predicate", p.pos(f.Pos()), "no identity predicate (closure) found in Include")
+	if pred == nil && predFn == nil {
+		r.bad("C03.include-predicate", "Include:predicate", p.pos(f.Pos()), "no identity predicate (closure or function of a Resource returning bool) found in Include")
 		return
 	}
-	pf := pred.Fn.(*ssa.Function)
+	var pf *ssa.Function
+	if pred != nil {
+		pf = pred.Fn.(*ssa.Function)
+	} else {
+		pf = predFn
+	}
 	r.fn(funcName(pf))
 	{
 		good, why := true, ""
@@ -845,8 +902,39 @@ func checkC03Include(p *Prog, r *Report) {
 				if isTypeNameOf(v, pf.Params[0]) {
 					return "cand.type"
 				}
+				if prm, ok := v.(*ssa.Parameter); ok && pred == nil {
+					// what every call in Include passes for this parameter
+					idx := -1
+					for i, q := range pf.Params {
+						if q == prm {
+							idx = i
+						}
+					}
+					kind := ""
+					eachInstr(f, func(ins ssa.Instruction) {
+						c, ok := ins.(*ssa.Call)
+						if !ok || c.Common().StaticCallee() != pf || idx < 0 || idx >= len(c.Common().Args) {
+							return
+						}
+						k := "?"
+						if isGetIDOf(c.Common().Args[idx], res) {
+							k = "res.id"
+						} else if isTypeNameOf(c.Common().Args[idx], res) {
+							k = "res.type"
+						}
+						if kind == "" {
+							kind = k
+						} else if kind != k {
+							kind = "?"
+						}
+					})
+					if kind != "" {
+						return kind
+					}
+					return "?"
+				}
 				if ld, ok := v.(*ssa.UnOp); ok && ld.Op == token.MUL {
-					if fv, ok := ld.X.(*ssa.FreeVar); ok {
+					if fv, ok := ld.X.(*ssa.FreeVar); ok && pred != nil {
 						for i, x := range pf.FreeVars {
 							if x == fv {
 								sv := singleStore(pred.Bindings[i])
@@ -950,7 +1038,7 @@ func checkC03Include(p *Prog, r *Report) {
 			return false
 		}
 		base, fl, ok := fieldLoad(hc.Common().Args[di])
-		return ok && fl == "Data" && base == ssa.Value(d) && hc.Common().Args[pi] == ssa.Value(pred)
+		return ok && fl == "Data" && base == ssa.Value(d) && pred != nil && hc.Common().Args[pi] == ssa.Value(pred)
 	}
 	// (a) primary resource
 	ga := mustPassEdge(f, target, func(cond ssa.Value, truth bool) bool {
